@@ -3,14 +3,14 @@ SPEC = dict(
     prop="C15",
     proof_module="SimbodyProofs.C15",
     sources=["SimbodyModel/Proto.lean", "SimbodyModel/TreeDyn.lean", "SimbodyModel/TreeDynIO.lean", "SimbodyModel/C15.lean",
-             "SimbodyProofs/TreeDynAbs.lean", "SimbodyProofs/TreeDynRefine.lean",
+             "SimbodyProofs/TreeDynAbs.lean", "SimbodyProofs/TreeDynRefine.lean", "SimbodyProofs/TreeDynSim.lean",
              "SimbodyProofs/C15.lean", "Drivers/C15.lean"],
     n=dict(quick=300, thorough=20000),
     rtol=1e-9, atol=1e-12,
     rule="random trees from VERIF_SEED as in C01 (17 mobilizer types, forward/reversed, 9 frame pairs, quaternion/Euler, 1-12 bodies, "
          "thorough: 1/5 of the cases up to 40), random q, u (zero in 10%), random applied forces, realized through Acceleration; "
          "distinct = distinct exported records",
-    partial='the principal clause (each aggregate equals the sum over bodies computed from reported body-frame poses, velocities, accelerations and mass properties) is decided by the implementation-side predicates (long-double recomputation) only: the model DEFINES the aggregates as those sums at Ground-frame level, so the theorems prove consequences (M*v_com = P, system parallel-axis theorem, Koenig per body, composite inertia = subtree sum on the abstract twin, structured SpatialInertia shift/+= = dense); body-frame -> Ground re-expression is not modelled; zero total mass and Instance-stage mass changes (no such state variable in this simbody) are not generated',
+    partial='the principal clause (each aggregate equals the sum over bodies computed from reported body-frame poses, velocities, accelerations and mass properties) is decided by the implementation-side predicates (long-double recomputation) only: the model DEFINES the aggregates as those sums at Ground-frame level, so the theorems prove consequences (M*v_com = P, system parallel-axis theorem, Koenig per body, composite inertia = subtree sum on the abstract twin + node-level simulation sim_cbi of the executed cbiIn recursion for positive masses, structured SpatialInertia shift/+= = dense); body-frame -> Ground re-expression is not modelled; zero total mass and Instance-stage mass changes (no such state variable in this simbody) are not generated',
     assumptions=[
         "the model takes per-body quantities already expressed in Ground (Mk_G = getBodySpatialInertiaInGround, body origin, "
         "V_GB, A_GB); re-expression of body-frame mass properties (Rotation::reexpressSymMat33) is C29's subject and is exercised "
